@@ -1153,7 +1153,9 @@ theorem C06_rename_search_unguarded_witness (fuel : Nat) : renameSearch false (f
 /-- **C06, the remaining walks over possibly cyclic graphs**: `SCHEMA_get_entities_use` and `SCOPE_find` over whole-schema USE
 clauses (mutual USE between schemas is legal EXPRESS), `SCOPE_dfs` over the supertypes (both generators),
 `TYPE_resolve_` over defined types that name each other, `RENAMEresolve` over item-wise USE/REFERENCE chains (its inner
-search is `C06_rename_search_terminates`).  Each returns on every graph, because each marks the node before it recurses
+search is `C06_rename_search_terminates`), and the two cyclicity checks `ENTITY_check_subsuper_cyclicity_` (subtypes) and
+`TYPE_check_select_cyclicity` (select members), which mark a successor before they descend into it (the root is cut by
+their equality test).  Each returns on every graph, because each marks the node before it recurses
 and the mark stays: regenerated per function — the guard and the order of mark and recursion; that nothing in the body
 starts another search (the set of functions that increment `__SCOPE_search_id` is regenerated too); for the resolve marks
 that "in progress" is only cleared after "failed" or the result has been set. -/
